@@ -680,7 +680,7 @@ def main(tier: str, seed: int, replay: str | None = None) -> int:
     if "language" in d:
         langs = [Lang.from_json(d["language"])]
     else:
-        n = 120 if tier == "quick" else 2000
+        n = 120 if tier == "quick" else 1000
         langs = list(FIXED) + small_scope()
         for k in range(n):
             # each flag combination gets a quarter of the stream
